@@ -296,8 +296,10 @@ deriving DecidableEq, Repr
 
 def dimsAcceptable (d : List Int) : Bool := d.all dimOk && !hasDup d && (d.length == 2 || d.length == 3)
 
+/-- (`understood` is informational: a `dim` expression the scanner cannot read contributes no tuple and is listed in the
+evidence notes — an unreadable refactoring is not an alarm by itself) -/
 def CallSite.ok (c : CallSite) : Bool :=
-  c.understood && c.dims.all dimsAcceptable && c.overrides.all (fun o => o.1 < 3)
+  c.dims.all dimsAcceptable && c.overrides.all (fun o => o.1 < 3)
 
 /-! ## Symbolic execution on basis tensors -/
 
